@@ -3,11 +3,22 @@ package vh
 import (
 	"context"
 	"errors"
+	"fmt"
+	"io"
 	"math/rand"
+	"net/http"
+	"runtime"
+	"strconv"
+	"strings"
 	"sync"
+	"sync/atomic"
 	"testing"
 	"testing/synctest"
 	"time"
+
+	"github.com/failsafe-go/failsafe-go/failsafegrpc"
+	"github.com/failsafe-go/failsafe-go/failsafehttp"
+	"google.golang.org/grpc"
 
 	"github.com/failsafe-go/failsafe-go"
 	"github.com/failsafe-go/failsafe-go/bulkhead"
@@ -42,6 +53,21 @@ func init() {
 		executions := 0
 		problems := 0
 		defer func() { emit(M{"k": "summary", "n": executions, "problems": problems}) }()
+		// the adapters: ONE gRPC server interceptor, ONE gRPC client interceptor and ONE HTTP round tripper used by many callers at
+		// once; every caller must get its own reply back (and the race detector watches the shared instances)
+		t.Run("adapters", func(t *testing.T) {
+			defer func() {
+				if p := recover(); p != nil {
+					problems++
+					emit(M{"k": "problem", "what": "panic: " + toString(p), "round": -1})
+				}
+			}()
+			if what := adapterStress(rounds); what != "" {
+				problems++
+				emit(M{"k": "problem", "what": what, "round": -1})
+			}
+			executions += rounds * 3 * 8
+		})
 		for r := 0; r < rounds; r++ {
 			t.Run("round", func(t *testing.T) {
 				defer func() {
@@ -137,4 +163,56 @@ func init() {
 			})
 		}
 	}
+}
+
+type echoRT struct{}
+
+func (echoRT) RoundTrip(r *http.Request) (*http.Response, error) {
+	runtime.Gosched()
+	return &http.Response{StatusCode: 200, Header: http.Header{"X-Echo": []string{r.Header.Get("X-Id")}}, Body: io.NopCloser(strings.NewReader(r.Header.Get("X-Id"))), Request: r}, nil
+}
+
+// adapterStress: 8 goroutines x rounds calls through shared adapter instances; returns "" or what went wrong.
+func adapterStress(rounds int) string {
+	srv := failsafegrpc.NewUnaryServerInterceptor[any](failsafegrpc.RetryPolicyBuilder[any]().WithMaxRetries(1).Build())
+	cli := failsafegrpc.NewUnaryClientInterceptor[any](failsafegrpc.RetryPolicyBuilder[any]().WithMaxRetries(1).Build())
+	rt := failsafehttp.NewRoundTripper(echoRT{}, failsafehttp.RetryPolicyBuilder().Build())
+	var bad atomic.Value
+	var wg sync.WaitGroup
+	for g := 0; g < 8; g++ {
+		wg.Add(1)
+		go func(g int) {
+			defer wg.Done()
+			for k := 0; k < rounds; k++ {
+				id := g*100000 + k
+				resp, err := srv(context.Background(), id, &grpc.UnaryServerInfo{FullMethod: "/svc/M"}, func(c context.Context, req any) (any, error) {
+					runtime.Gosched()
+					return req.(int) + 1, nil
+				})
+				if err != nil || resp != any(id+1) {
+					bad.Store(fmt.Sprintf("gRPC server interceptor: request %d got reply %v, %v", id, resp, err))
+				}
+				var reply int
+				err = cli(context.Background(), "/svc/M", id, &reply, nil, func(c context.Context, method string, req, rep any, cc *grpc.ClientConn, opts ...grpc.CallOption) error {
+					runtime.Gosched()
+					*(rep.(*int)) = req.(int) + 2
+					return nil
+				})
+				if err != nil || reply != id+2 {
+					bad.Store(fmt.Sprintf("gRPC client interceptor: request %d got reply %v, %v", id, reply, err))
+				}
+				req, _ := http.NewRequest("GET", "http://echo/x", nil)
+				req.Header.Set("X-Id", strconv.Itoa(id))
+				hr, err := rt.RoundTrip(req)
+				if err != nil || hr.Header.Get("X-Echo") != strconv.Itoa(id) {
+					bad.Store(fmt.Sprintf("HTTP round tripper: request %d got %v, %v", id, hr, err))
+				}
+			}
+		}(g)
+	}
+	wg.Wait()
+	if v := bad.Load(); v != nil {
+		return v.(string)
+	}
+	return ""
 }
